@@ -4,6 +4,7 @@ import (
 	"encoding/json"
 	"fmt"
 	"os"
+	"runtime/debug"
 	"sort"
 	"strings"
 )
@@ -138,6 +139,9 @@ func runRule(p *Prog, r *Rule) (obls []Obligation, info map[string]interface{}) 
 	curProg = p
 	defer func() {
 		if e := recover(); e != nil {
+			if os.Getenv("QF_PANIC_TRACE") != "" {
+				fmt.Fprintf(os.Stderr, "panic in %s: %v\n%s\n", r.ID, e, debug.Stack())
+			}
 			c.undecided("analyzer-panic", "-", fmt.Sprintf("analyzer panic: %v", e))
 			obls, info = c.obls, c.info
 		}
